@@ -193,6 +193,12 @@ func c06(c *Ctx) {
 			for i := range b {
 				b[i] = alphabet[c.R.Intn(len(alphabet))]
 			}
+			if c.R.Intn(3) == 0 {
+				// a rune whose low byte is a delimiter, somewhere in it
+				rs := []rune(gen.CollisionRunes)
+				i := c.R.Intn(len(b) + 1)
+				b = append(append(append([]byte{}, b[:i]...), string(rs[c.R.Intn(len(rs))])...), b[i:]...)
+			}
 			if c.R.Intn(2) == 0 {
 				b = append([]byte("@goht T() {\n\t"), b...)
 			}
